@@ -144,8 +144,8 @@ def helperString (value : Cps) : Cps :=
             (replace1 12 [0x5C, 0x63, 0x20]
               (replace1 13 [0x5C, 0x64, 0x20]
                 (replace1 10 [0x5C, 0x61, 0x20] value)))
-  -- `if value.endswith('\\'): value = value[:-1] + '\\\\'`
-  let v := if v.getLast? = some 0x5C then v.dropLast ++ [0x5C, 0x5C] else v
+  -- `if (len(value) - len(value.rstrip('\\'))) % 2: value = value + '\\'`
+  let v := if (v.reverse.takeWhile (· = 0x5C)).length % 2 = 1 then v ++ [0x5C] else v
   0x22 :: v ++ [0x22]
 
 /-! ## `helper.stringvalue` / `Base._stringtokenvalue` (`helper.py:95-102`, `util.py:241-252`) -/
